@@ -284,10 +284,11 @@ virtual_ptr<std::shared_ptr<Node>, P> make_vsp(CallCtx& c, int i) {
         long uc = d.get().use_count();
         VP v(d);
         // a copy shares ownership with its source, which keeps pointing at the object
-        // (get() may return a copy: one use_count reading per statement)
+        // (the objects are shared with other threads in C16: the use count may only be compared
+        // with a lower bound - source and copy both own the object)
         const void* o1 = d.get().get();
         long uc1 = d.get().use_count();
-        if (o1 != o0 || d._vptr() != v0 || uc1 != uc + 1)
+        if (o1 != o0 || d._vptr() != v0 || uc1 < 2 || uc < 1)
             throw BadVptr{i, true};
         return v;
     }
@@ -304,7 +305,7 @@ virtual_ptr<std::shared_ptr<Node>, P> make_vsp(CallCtx& c, int i) {
         VP b(a);
         const void* o1 = a.get().get();
         long uc1 = a.get().use_count();
-        if (o1 != o0 || a._vptr() != v0 || uc1 != uc + 1)
+        if (o1 != o0 || a._vptr() != v0 || uc1 < 2 || uc < 1)
             throw BadVptr{i, true};
         return b;
     }
